@@ -45,11 +45,33 @@ func (g *Gen) tplCoroutines() []L.Stmt {
 		g.class("co:yield_in_tail_call")
 	}
 	out = append(out, &L.LocalFuncStmt{Name: helper, Fn: fn(nil, true, hbody)})
+	// closures over the coroutines' own locals are collected here and called by the driver while their coroutine is
+	// suspended, running another one, and after it has finished or failed
+	fns := "fns" + id
+	out = append(out, local1(fns, tbl()))
+	stash := func(f L.Expr) L.Stmt { return assign1(idx(name(fns), bin("+", un("#", name(fns)), num(1))), f) }
+	useFns := func(tag string) L.Stmt {
+		return &L.NumForStmt{Var: "fi", Start: num(1), End: un("#", name(fns)), Body: blk(emit(str(tag), name("fi"), call(idx(name(fns), name("fi")))))}
+	}
 	wrapped := make([]bool, nco)
 	for c := 0; c < nco; c++ {
 		cn := "C" + strconv.Itoa(c)
 		var body []L.Stmt
 		body = append(body, emit(str(cn+" starts"), &L.VarargExpr{}), local1("loc", num(float64(c*100))))
+		if g.n(2, "stashloc") == 0 {
+			g.class("co:closure_over_body_local_called_by_driver")
+			body = append(body, stash(fn(nil, false, blk(assign1(name("loc"), bin("+", name("loc"), num(1))), ret(name("loc"))))))
+			if k := g.n(6, "extralocals"); k > 0 {
+				// more locals, the last one (the highest register) captured as well
+				var names []string
+				var es []L.Expr
+				for i := 0; i < k; i++ {
+					names = append(names, "x"+strconv.Itoa(i))
+					es = append(es, num(float64(c*1000+i)))
+				}
+				body = append(body, local(names, es...), stash(fn(nil, false, blk(ret(name(names[k-1]))))))
+			}
+		}
 		steps := 1 + g.n(4, "costeps")
 		for s := 0; s < steps; s++ {
 			switch g.n(11, "costep") {
@@ -60,7 +82,7 @@ func (g *Gen) tplCoroutines() []L.Stmt {
 				g.class("co:yield_at_depth")
 			case 3:
 				// loop state and locals survive suspension
-				body = append(body, &L.NumForStmt{Var: "k", Start: num(1), End: num(float64(1 + g.n(3, "loopn"))), Body: blk(assign1(name("loc"), bin("+", name("loc"), name("k"))), emit(str(cn+" loop"), name("k"), name("loc"), co("yield", name("k"))))})
+				body = append(body, &L.NumForStmt{Var: "k", Start: num(1), End: num(float64(1 + g.n(3, "loopn"))), Body: blk(assign1(name("loc"), bin("+", name("loc"), name("k"))), emit(str(cn+" loop"), name("k"), paren(co("yield", name("k"))), name("loc")))})
 			case 4:
 				// resume another coroutine from inside this one (nested resume); the target may be in any state
 				if nco > 1 {
@@ -112,7 +134,11 @@ func (g *Gen) tplCoroutines() []L.Stmt {
 		if g.n(3, "probe") == 0 {
 			out = append(out, emit(str("main probes"), co("status", idx(tab, num(float64(t+1)))), co("running")))
 		}
+		if g.n(4, "usefns") == 0 {
+			out = append(out, useFns("closure during drive"))
+		}
 	}
+	out = append(out, useFns("closure after drive"))
 	// closures handed out by coroutines keep working whatever state the coroutine is in (values arrive through emit only;
 	// calling them is done by a fixed epilogue when one was yielded: the driver keeps the last function it received)
 	g.class("co:ncoroutines" + strconv.Itoa(nco))
@@ -187,6 +213,19 @@ func (g *Gen) tplGenerator() []L.Stmt {
 	))))))
 	out := []L.Stmt{
 		&L.GenForStmt{Names: []string{"a", "b"}, Exprs: []L.Expr{call(paren(gen), num(n))}, Body: blk(emit(str("gen"), name("a"), name("b")))},
+	}
+	if g.n(2, "anyfirst") == 0 {
+		// a generator whose yields start with arbitrary values: only a nil first value ends the loop (false, 0, "" do not);
+		// afterwards the generator is dead, or still suspended when a nil ended the loop early
+		g.class("co:generator_yields_any_first_value")
+		var ys []L.Stmt
+		for i, k := 0, 1+g.n(4, "nyields"); i < k; i++ {
+			first := []L.Expr{&L.FalseExpr{}, &L.FalseExpr{}, num(0), str(""), &L.TrueExpr{}, num(float64(i + 1)), &L.NilExpr{}}[g.n(7, "firstv")]
+			ys = append(ys, callStmt(co("yield", append([]L.Expr{first}, g.payload("gy")...)...)))
+		}
+		out = append(out, local1("g3", co("wrap", fn(nil, false, blk(ys...)))),
+			&L.GenForStmt{Names: []string{"a", "b", "c"}, Exprs: []L.Expr{name("g3")}, Body: blk(emit(str("gen3"), name("a"), name("b"), name("c")))},
+			emit(str("after gen3"), call(name("pcall"), name("g3"))), emit(str("again"), call(name("select"), num(1), call(name("pcall"), name("g3")))))
 	}
 	if g.n(2, "twogens") == 0 {
 		// two generators interleaved keep separate state
